@@ -280,9 +280,33 @@ func TestC15(t *testing.T) {
 	shapeCase(c, "named string", func(i int) namedStr { return namedStr(strconv.Itoa(i)) }, func(e namedStr) int { n, _ := strconv.Atoi(string(e)); return n }, false)
 	shapeCase(c, "named string with TypeNamer", func(i int) namedStrCustom { return namedStrCustom(strconv.Itoa(i)) }, func(e namedStrCustom) int { n, _ := strconv.Atoi(string(e)); return n }, true)
 	crossShape(c)
+	sameName(c)
 	run.Sample(map[string]any{"shape": "*state.ChangeMessage", "event_type_name": ebu.EventType(&state.ChangeMessage{}), "go_type": "*state.ChangeMessage", "apis": []string{"persist-name", "replay-eventtype-compare", "subscribe-replay-phase", "subscribe-live-phase", "upcast-as-source", "upcast-as-target", "upcast-target-into-subscription"}})
 	run.Exhaustive(true)
 	_ = json.Valid
+}
+
+// two Go revisions of an event that keep one custom name (also T and *T do): a typed upcast between
+// them is an upcast of a name to itself
+type sameV1 struct{ ID int }
+type sameV2 struct{ ID, Extra int }
+
+func (sameV1) EventTypeName() string { return "c15.same-name" }
+func (sameV2) EventTypeName() string { return "c15.same-name" }
+
+// sameName: RegisterUpcast derives both names with EventType; when they are equal the registration
+// is refused (source equals target) - it is never filed under other names, where it could not match
+// what was persisted.
+func sameName(c *caseCtx) {
+	bus := ebu.New(ebu.WithStore(ebu.NewMemoryStore()))
+	ebu.Publish(bus, sameV1{ID: 1})
+	err1 := ebu.RegisterUpcast(bus, func(a sameV1) sameV2 { return sameV2{ID: a.ID, Extra: 1} })
+	err2 := ebu.RegisterUpcast(bus, func(a plain) *plain { return &a })
+	c.run.Case("typed-upcast-between-equal-names", true)
+	if err1 == nil {
+		c.run.Violation("typename:typed-upcast-between-equal-names", "RegisterUpcast between two Go types whose EventType name is the same (\"c15.same-name\") was accepted: an upcaster of a name to itself, or one filed under names other than the ones events are persisted with", nil)
+	}
+	_ = err2 // plain and *plain have different names ("c15.plain" / "*c15.plain"): either answer is fine here
 }
 
 type versioned struct{ ID, V int }
